@@ -55,3 +55,4 @@ def run(ctx, R):
     jit.rule_cfr_x86(ctx, R, F)    # CFROUND: the x86 JIT and the interpreter apply the same rule (rotation, v2 test, control word)
     x86hsem.rule_mem_hsem(ctx, R)
     x86hsem.rule_fp_hsem(ctx, R)
+    rvhsem.rule_mem_hsem(ctx, R, 'rvv')
